@@ -65,7 +65,7 @@ def gen_case(rng):
     spec = gen.strip_private(spec)
     T = len(gen.grid_points(g))
     k = int(gen.pick(rng, [0] + list(range(1, T)) * 3))
-    S = int(rng.integers(2, 6))
+    S = int(rng.integers(2, 6)) if rng.random() < 0.85 else 1          # (also a scenario set with a single member)
     identical = rng.random() < 0.12
     keys = sorted(spec['prices'])
     scen = []
